@@ -63,6 +63,22 @@ func verifFinite(name string, d *Decimal) {
 	}
 }
 
+// verifDivisor fills d with an arbitrary non-zero finite divisor of at most Kd digits. Its
+// coefficient is enumerated value by value (symbolic-by-symbolic division is outside the
+// solver's reach; with a concrete divisor coefficient every query is linear). Sign and
+// exponent stay symbolic.
+func verifDivisor(name string, d *Decimal) {
+	Kd := verifParamInt("Kd")
+	W := verifParamInt("W")
+	base := verifExpBase()
+	verifNondetCoeff(name+"c", &d.Coeff, int(Kd))
+	verifAssume(d.Coeff.Sign() != 0)
+	verifConcretizeBig(&d.Coeff)
+	d.Negative = verifNondetBool(name + "neg")
+	d.Exponent = int32(verifNondetInt(name+"e", base-W, base+W))
+	d.Form = Finite
+}
+
 // verifHavoc gives the destination an arbitrary previous content (C06).
 func verifHavoc(name string, d *Decimal) {
 	K := verifParamInt("K")
